@@ -133,12 +133,13 @@ PLAIN_KEYS = [b"", b"a", b"key", b"hello world", "é".encode(), "日本".encode(
 
 
 def key_plain(k):
-    """guard of findings F1/F2 on one dictionary key"""
+    """guard of finding F1 on one dictionary key: valid UTF-8 (F2 — keys that JSON escapes — was repaired in /repo 540af2db,
+    so quotes, backslashes, controls, U+2028/9 … are ordinary keys now)"""
     try:
-        t = k.decode("utf-8")
+        k.decode("utf-8")
     except UnicodeDecodeError:
         return False
-    return not any(ord(ch) < 0x20 or ch in '"\\\u2028\u2029' for ch in t)
+    return True
 
 
 class GenJ(cc.Gen1):
@@ -147,7 +148,7 @@ class GenJ(cc.Gen1):
     def __init__(self, sc, rng, maxdepth=4, big=False, guard=True):
         super().__init__(sc, rng, maxdepth, big)
         self.guard = guard
-        # guard of the known findings F1/F2: keys of string-keyed dictionaries are valid UTF-8 that JSON writes without escapes
+        # guard of the known finding F1: keys of string-keyed dictionaries are valid UTF-8 (anything JSON escapes included)
         self.dict_elems = {i["elem"]["ty"] for i in self.I if i["kind"] == "dict"}
         self._key = False
 
@@ -164,7 +165,14 @@ class GenJ(cc.Gen1):
         k = r.below(10)
         if self._key:
             self._key = False
-            s = r.choice(PLAIN_KEYS) if r.chance(1, 3) else bytes(r.range(97, 122) for _ in range(r.choice(cc.STR_LENS)))
+            kk = r.below(4)
+            if kk == 0:
+                s = r.choice(PLAIN_KEYS)
+            elif kk == 1:
+                # every character JSON escapes or treats specially, alone or mixed with letters (valid UTF-8 only: F1)
+                s = b"".join(r.choice(SPECIALS) if r.chance(2, 3) else bytes([r.range(97, 122)]) for _ in range(r.choice([1, 1, 2, 3, 5])))
+            else:
+                s = bytes(r.range(97, 122) for _ in range(r.choice(cc.STR_LENS)))
             hdr = bytes([len(s)])
             bb = hdr + s
             return bb + bytes(-len(bb) % 4)
@@ -987,9 +995,9 @@ def fixed_values(sc):
     out = []
     if inst_by_name(sc, "cases.testDictString"):
         out += [("cases.testDictString", {"dict": [{"key": b"\xff", "value": 1}]}, "F1", "dictionary key that is not valid UTF-8"),
-                ("cases.testDictString", {"dict": [{"key": b"a\nb", "value": 1}]}, "F2", "dictionary key that JSON escapes"),
-                ("cases.testDictString", {"dict": [{"key": b"q\"", "value": 1}]}, "F2", "dictionary key that JSON escapes"),
-                ("cases.testDictString", {"dict": [{"key": " ".encode(), "value": 1}]}, "F2", "dictionary key that JSON escapes"),
+                ("cases.testDictString", {"dict": [{"key": b"a\nb", "value": 1}]}, "ok", "dictionary key that JSON escapes (F2, repaired in 540af2db)"),
+                ("cases.testDictString", {"dict": [{"key": b"q\"", "value": 1}]}, "ok", "dictionary key that JSON escapes (F2, repaired in 540af2db)"),
+                ("cases.testDictString", {"dict": [{"key": " ".encode(), "value": 1}]}, "ok", "dictionary key that JSON escapes (F2, repaired in 540af2db)"),
                 ("cases.testDictAny", {"dict": [{"key": NEG0_64, "value": 1}]}, "L2", "-0.0 in an unmasked float64 field"),
                 ("cases.testDictAny", {"dict": [{"key": NAN64_P, "value": 1}]}, "L3", "NaN with a payload"),
                 ("cases.testDictAny", {"dict": [{"key": 0x7FF8000000000001, "value": 1}, {"key": 0xFFF0000000000000, "value": 2}]}, "ok", "NaN/-Inf")]
@@ -1009,7 +1017,7 @@ def fixed_values(sc):
                 ("jx.unionBox", {"u": (3, {"x": NEG0_32, "y": b""}), "us": [], "mu": None}, "L2", "-0.0 in a named union variant field"),
                 ("jx.dicts", {"a": [{"key": b"k", "value": NEG0_32}], "b": [], "c": [], "d": [], "e": [], "f": [], "g": []}, "ok", "-0.0 as dictionary value"),
                 ("jx.dicts", {"a": [], "b": [{"key": b"\xc3", "value": b"x"}], "c": [], "d": [], "e": [], "f": [], "g": []}, "F1", "dictionary key that is not valid UTF-8"),
-                ("jx.dicts", {"a": [], "b": [{"key": b"\\", "value": b"x"}], "c": [], "d": [], "e": [], "f": [], "g": []}, "F2", "dictionary key that JSON escapes"),
+                ("jx.dicts", {"a": [], "b": [{"key": b"\\", "value": b"x"}], "c": [], "d": [], "e": [], "f": [], "g": []}, "ok", "dictionary key that JSON escapes (F2, repaired in 540af2db)"),
                 ("jx.dicts", {"a": [], "b": [{"key": b"ok", "value": b"\xff\\\"\n"}], "c": [], "d": [], "e": [], "f": [], "g": []}, "ok", "dictionary value with escapes / bad UTF-8")]
     return out
 
@@ -1031,6 +1039,10 @@ def string_sweep_values(sc):
         out += [("jx.dicts", {"a": [], "b": [{"key": b"k", "value": bytes([x]) + b"v"}], "c": [{"key": 5, "value": bytes([x])}], "d": [], "e": [], "f": [], "g": []},
                  "ok", "byte 0x%02x as dictionary value" % x) for x in esc]
         out += [("jx.unionBox", {"u": (2, bytes([x])), "us": [(3, {"x": 1, "y": bytes([x, x])})], "mu": None}, "ok", "byte 0x%02x as union value" % x) for x in esc]
+    if inst_by_name(sc, "cases.testDictString"):
+        out += [("cases.testDictString", {"dict": [{"key": bytes([x]), "value": 1}, {"key": b"k" + bytes([x]) + b"z", "value": 2}]}, "ok",
+                 "byte 0x%02x in dictionary keys" % x) for x in esc]
+        out += [("cases.testDictString", {"dict": [{"key": ("a" + m).encode(), "value": 3}]}, "ok", "multi-byte dictionary key") for m in multi]
     if inst_by_name(sc, "cases.testUnionContainer"):
         out += [("cases.testUnionContainer", {"value": (1, {"value": b"u" + bytes([x])})}, "ok", "byte 0x%02x in a union variant field" % x) for x in esc]
     return out
@@ -1041,9 +1053,6 @@ def known_answer_ok(cls, a, model_out):
     d = parse_out(a) if a.startswith("ok ") else {}
     if cls == "F1":
         return a == "ok j=!invalid valid=0 rt=rej"
-    if cls == "F2":   # valid JSON, same tree as the model, only the re-read differs (key not unescaped)
-        m = parse_out(model_out) if model_out.startswith("ok ") else {}
-        return d.get("valid") == "1" and d.get("rt") == "json" and d.get("j") == m.get("j") and m.get("rt") == "ok"
     if cls in ("L2", "L3"):   # the model follows the code here: identical answers, TL1 changes
         return a == model_out and d.get("valid") == "1" and d.get("rt") == "tl1"
     if cls == "F3":
